@@ -177,6 +177,20 @@ def strip_generics(path):
 def norm_callee(func):
     """Normalise a callee path: drop generic args but keep `<impl T>` / `<A as B>` heads readable."""
     f = func.strip()
+    # `<A as B>::method` -> `A as B>::method` style token kept readable for matching
+    m = re.match(r"^<(.*?) as (.*?)>::(.*)$", f)
+    if m and f.startswith("<") :
+        # find the matching '>' of the leading '<'
+        depth = 0
+        for i, ch in enumerate(f):
+            if ch == "<":
+                depth += 1
+            elif ch == ">" and not (i and f[i - 1] in "-="):
+                depth -= 1
+                if depth == 0:
+                    head = f[1:i]
+                    f = "QSELF[" + strip_generics(head) + "]" + f[i + 1:]
+                    break
     # turn '<impl i32>' / '<X as Y>' into a plain token
     f = re.sub(r"<impl ([^<>]*(?:<[^<>]*>)?[^<>]*)>", lambda m: "impl_" + re.sub(r"[^A-Za-z0-9_]", "_", m.group(1)), f)
     return f
@@ -1075,7 +1089,7 @@ class Encoder:
         if ERROR_CTOR.match(sg) or sg.endswith("::error::Error::from_args") or re.search(r"Error::(adhoc|adhoc_from_args|adhoc_from_static_str|range|shared)$", sg):
             self.opaque_calls[sg] = self.opaque_calls.get(sg, 0) + 1
             return ("value", VOpaque("error"))
-        if re.search(r"as (jiff::)?error::ErrorContext>::(context|with_context)$", sg) or re.search(r"ErrorContext>::(context|with_context)$", sg):
+        if re.search(r"^QSELF\[.* as (jiff::)?error::ErrorContext\]::(context|with_context)$", sg):
             self.opaque_calls[sg] = self.opaque_calls.get(sg, 0) + 1
             return ("value", VOpaque("error"))
         if sg in ("core::intrinsics::cold_path", "std::intrinsics::cold_path", "core::hint::cold_path"):
@@ -1349,10 +1363,16 @@ class Encoder:
                         continue
                     kv = int(key)
                     if isinstance(v, VInt):
-                        # switchInt compares raw bits: keys are printed in the operand type
+                        # switchInt keys are printed as raw (unsigned) bit patterns: map them
+                        # back into the operand's signed range
+                        bits, signed = INT_TYPES[v.ty]
+                        if signed and kv >= (1 << (bits - 1)):
+                            kv -= 1 << bits
                         if lo is not None and (kv < lo or kv > hi):
                             listed.append(kv)
                             continue
+                    elif kv >= (1 << 63):
+                        kv -= 1 << 64
                     listed.append(kv)
                     c = z3.simplify(t == kv)
                     go(bb, self.mkand(pc, c))
